@@ -85,7 +85,7 @@ def _str_labels(ints, uni=False):
     return out
 
 
-def gen_grouping(rng, n, kinds=('unique', 'groups', 'allsame'), allow_allsame=True, typ=None):
+def gen_grouping(rng, n, kinds=('unique', 'groups', 'allsame'), allow_allsame=True, typ=None, fewdups=0.25):
     kind = rng.pick([k for k in kinds if allow_allsame or k != 'allsame'])
     typ = typ or rng.pick(['int', 'str', 'int', 'str', 'float'])
     cont = rng.pick(['list', 'array'])
@@ -97,8 +97,11 @@ def gen_grouping(rng, n, kinds=('unique', 'groups', 'allsame'), allow_allsame=Tr
         labs = [5] * n
     else:
         g = rng.randint(1, max(1, n - 1)) if n > 1 else 1
+        if n > 3 and rng.chance(fewdups):
+            g = max(1, n - rng.randint(1, 2))          # mostly unique with one or two repeated values
         labs = list(range(g)) + [rng.randrange(g) for _ in range(n - g)]
-        rng.shuffle(labs)
+        if rng.chance(0.75):
+            rng.shuffle(labs)                          # else: the repeats sit together at the end
         labs = [x * 2 + 3 for x in labs]
     if typ == 'str':
         labs = _str_labels(labs, uni=rng.chance(0.2))
